@@ -829,13 +829,375 @@ fn key_worlds(tier: Tier) -> Vec<(Keys, usize)> {
 }
 
 // ==========================================================================================
+// (3) token binder: bucketed set of bound tokens
+
+const BINDER_BUCKET: usize = 100;
+const MAX_TOKENS: usize = 10_000;
+const MAX_BATCH: usize = 2 * BINDER_BUCKET;
+const POOL: u16 = 20_000; // ids of the big-batch pool
+
+#[derive(Clone, Debug, PartialEq, Eq)]
+enum BindOp {
+    Bind(u16),
+    Unbind(u16),
+    Batch(Vec<u16>),
+    /// bind_tokens with the first n addresses of a pool of fresh addresses (probe, never extended)
+    BigBatch(u16),
+}
+
+struct Binder {
+    name: &'static str,
+    /// number of filler tokens (ids 100..) bound in each seed
+    seeds: Vec<usize>,
+    universe: Vec<u16>,
+    batches: Vec<Vec<u16>>,
+    big: Vec<u16>,
+    /// index-based getters are compared for every index when the registry holds at most this many
+    /// tokens; above, for the indices around every bucket edge and both ends
+    full_index_scan_up_to: usize,
+}
+
+struct BindInst {
+    e: Env,
+    c: Address,
+    book: Book,
+    fillers: usize,
+}
+
+impl Binder {
+    fn call(&self, i: &BindInst, op: &BindOp) -> bool {
+        let e = &i.e;
+        let sv = |l: &mut dyn Iterator<Item = u16>| -> SVec<Address> {
+            let mut v = SVec::new(e);
+            for x in l {
+                v.push_back(i.book.a(x));
+            }
+            v
+        };
+        let (f, args): (&str, SVec<Val>) = match op {
+            BindOp::Bind(x) => ("bind_token", (i.book.a(*x),).into_val(e)),
+            BindOp::Unbind(x) => ("unbind_token", (i.book.a(*x),).into_val(e)),
+            BindOp::Batch(l) => ("bind_tokens", (sv(&mut l.iter().copied()),).into_val(e)),
+            BindOp::BigBatch(n) => ("bind_tokens", (sv(&mut (POOL..POOL + *n)),).into_val(e)),
+        };
+        call_mocked(e, &i.c, f, args).is_ok()
+    }
+
+    fn batch_ids(op: &BindOp) -> Vec<u16> {
+        match op {
+            BindOp::Batch(l) => l.clone(),
+            BindOp::BigBatch(n) => (POOL..POOL + *n).collect(),
+            _ => vec![],
+        }
+    }
+
+    fn expect(&self, m: &BTreeSet<u16>, op: &BindOp) -> Ex {
+        match op {
+            BindOp::Bind(x) => {
+                if m.contains(x) {
+                    must(false, "duplicate-refused", format!("token {x} is already bound"))
+                } else if m.len() >= MAX_TOKENS {
+                    must(false, "limit-exact", format!("{} tokens are bound and the documented maximum is {MAX_TOKENS}", m.len()))
+                } else {
+                    must(true, add_oracle(m.len(), MAX_TOKENS), format!("token {x} is not bound and {} of at most {MAX_TOKENS} tokens are bound", m.len()))
+                }
+            }
+            BindOp::Unbind(x) => {
+                if m.contains(x) {
+                    must(true, "valid-op-accepted", format!("token {x} is bound"))
+                } else {
+                    must(false, "absent-removal-refused", format!("token {x} is not bound"))
+                }
+            }
+            BindOp::Batch(_) | BindOp::BigBatch(_) => {
+                let l = Self::batch_ids(op);
+                let s: BTreeSet<u16> = l.iter().copied().collect();
+                if s.len() != l.len() {
+                    must(false, "duplicate-refused", "the batch names a token twice")
+                } else if l.iter().any(|x| m.contains(x)) {
+                    must(false, "duplicate-refused", "a token of the batch is already bound")
+                } else if l.len() > MAX_BATCH {
+                    must(false, "limit-exact", format!("the batch has {} tokens and the documented maximum batch is {MAX_BATCH}", l.len()))
+                } else if m.len() + l.len() > MAX_TOKENS {
+                    must(false, "limit-exact", format!("{} + {} tokens exceed the documented maximum {MAX_TOKENS}", m.len(), l.len()))
+                } else {
+                    let edge = l.len() == MAX_BATCH || m.len() + l.len() == MAX_TOKENS;
+                    must(
+                        true,
+                        if edge { "limit-exact" } else { "valid-op-accepted" },
+                        format!("all {} tokens of the batch are distinct and unbound, batch <= {MAX_BATCH}, total {} <= {MAX_TOKENS}", l.len(), m.len() + l.len()),
+                    )
+                }
+            }
+        }
+    }
+
+    fn probes(&self, i: &BindInst) -> Vec<u16> {
+        let mut p = self.universe.clone();
+        if i.fillers > 0 {
+            p.push(100);
+            p.push(100 + i.fillers as u16 - 1);
+            p.push(100 + (i.fillers as u16) / 2);
+        }
+        p.sort();
+        p.dedup();
+        p
+    }
+
+    fn observe(&self, i: &BindInst, m: &BTreeSet<u16>, cx: &mut StepCtx<Self>) -> Result<(), Violation> {
+        let e = &i.e;
+        let mut n = 0u64;
+        let v: SVec<Address> = getv(e, &i.c, "linked_tokens", no_args(e)).ok_or_else(|| Violation::new("getter", "linked_tokens failed".into()))?;
+        // reverse lookup through a map (the list may hold thousands of addresses)
+        let rev: BTreeMap<Address, u16> = i.book.fwd.iter().map(|(k, a)| (a.clone(), *k)).collect();
+        let mut listed: Vec<u16> = vec![];
+        for a in v.iter() {
+            listed.push(*rev.get(&a).ok_or_else(|| Violation::new("outside-universe", "linked_tokens contains an address that was never bound".into()))?);
+        }
+        let got = as_set(listed.iter().copied(), "linked_tokens")?;
+        ensure!(
+            got == *m,
+            "linked-tokens",
+            "linked_tokens lists {} tokens, the model has {}; ids in exactly one of them: {:?}",
+            got.len(),
+            m.len(),
+            got.symmetric_difference(m).take(6).collect::<Vec<_>>()
+        );
+        n += 1;
+        let count = listed.len() as u32;
+        // membership + index of a token
+        for x in self.probes(i) {
+            let a = i.book.a(x);
+            let b: Option<bool> = getv(e, &i.c, "is_token_bound", (a.clone(),).into_val(e));
+            ensure!(b == Some(m.contains(&x)), "is-token-bound", "is_token_bound({}) = {:?}, model {}", x, b, m.contains(&x));
+            let ix: Option<u32> = getv(e, &i.c, "get_token_index", (a.clone(),).into_val(e));
+            n += 2;
+            match ix {
+                None => ensure!(!m.contains(&x), "token-index", "get_token_index({}) refused although the token is bound", x),
+                Some(ix) => {
+                    ensure!(m.contains(&x), "token-index", "get_token_index({}) = {} although the token is not bound", x, ix);
+                    let back: Option<Address> = getv(e, &i.c, "get_token_by_index", (ix,).into_val(e));
+                    n += 1;
+                    ensure!(back.as_ref() == Some(&a), "token-index", "get_token_by_index(get_token_index({}) = {}) is a different token", x, ix);
+                }
+            }
+        }
+        // index-based access: every element exactly once
+        let idxs: Vec<u32> = if (count as usize) <= self.full_index_scan_up_to {
+            (0..count).collect()
+        } else {
+            let mut s: BTreeSet<u32> = BTreeSet::new();
+            let mut edge = 0u32;
+            while edge <= count {
+                for d in [edge.saturating_sub(2), edge.saturating_sub(1), edge, edge + 1] {
+                    if d < count {
+                        s.insert(d);
+                    }
+                }
+                edge += BINDER_BUCKET as u32;
+            }
+            for d in [count.saturating_sub(2), count.saturating_sub(1)] {
+                s.insert(d);
+            }
+            s.into_iter().collect()
+        };
+        let mut by_index: Vec<u16> = vec![];
+        for ix in &idxs {
+            let a: Option<Address> = getv(e, &i.c, "get_token_by_index", (*ix,).into_val(e));
+            n += 1;
+            let a = a.ok_or_else(|| Violation::new("index-access", format!("get_token_by_index({ix}) refused although {count} tokens are bound")))?;
+            by_index.push(*rev.get(&a).ok_or_else(|| Violation::new("outside-universe", "get_token_by_index returned an address that was never bound".into()))?);
+        }
+        let bs = as_set(by_index.iter().copied(), "get_token_by_index over the scanned indices")?;
+        if idxs.len() == count as usize {
+            ensure!(bs == *m, "index-access", "indices 0..{} enumerate {:?}…, model differs", count, bs.symmetric_difference(m).take(6).collect::<Vec<_>>());
+        } else {
+            ensure!(bs.is_subset(m), "index-access", "index access returned unbound tokens {:?}", bs.difference(m).take(6).collect::<Vec<_>>());
+        }
+        let past: Option<Address> = getv(e, &i.c, "get_token_by_index", (count,).into_val(e));
+        n += 1;
+        ensure!(past.is_none(), "index-access", "get_token_by_index({}) answered although only {} tokens are bound", count, count);
+        cx.stats.count("getter-comparisons", n);
+        Ok(())
+    }
+}
+
+impl World for Binder {
+    type Op = BindOp;
+    type Model = BTreeSet<u16>;
+    type Inst = BindInst;
+
+    fn name(&self) -> String {
+        self.name.into()
+    }
+    fn seeds(&self) -> usize {
+        self.seeds.len()
+    }
+    fn seed_name(&self, s: usize) -> String {
+        format!("{} tokens bound", self.seeds[s])
+    }
+
+    fn fresh(&self, seed: usize) -> (BindInst, BTreeSet<u16>) {
+        let e = envx::mk_env(START);
+        let c = e.register(wrap::BinderWrap, ());
+        let mut book = Book::new();
+        for x in &self.universe {
+            book.gen(&e, *x);
+        }
+        let fillers = self.seeds[seed];
+        let mut m = BTreeSet::new();
+        let mut batch: SVec<Address> = SVec::new(&e);
+        for k in 0..fillers {
+            let id = 100 + k as u16;
+            book.gen(&e, id);
+            m.insert(id);
+            batch.push_back(book.a(id));
+            if batch.len() as usize == MAX_BATCH || k + 1 == fillers {
+                seed_call(&e, &c, "bind_tokens", (batch.clone(),).into_val(&e));
+                batch = SVec::new(&e);
+            }
+        }
+        if let Some(n) = self.big.iter().max() {
+            for x in POOL..POOL + *n {
+                book.gen(&e, x);
+            }
+        }
+        (BindInst { e, c, book, fillers }, m)
+    }
+
+    fn ops(&self, i: &BindInst, _m: &BTreeSet<u16>, d: usize) -> Vec<BindOp> {
+        let mut v = vec![];
+        for x in &self.universe {
+            v.push(BindOp::Bind(*x));
+        }
+        for x in self.probes(i) {
+            v.push(BindOp::Unbind(x));
+        }
+        for l in &self.batches {
+            v.push(BindOp::Batch(l.clone()));
+        }
+        if d <= 1 {
+            for n in &self.big {
+                v.push(BindOp::BigBatch(*n));
+            }
+        }
+        v
+    }
+
+    fn kind(&self, op: &BindOp) -> String {
+        match op {
+            BindOp::Bind(_) => "binder.bind_token",
+            BindOp::Unbind(_) => "binder.unbind_token",
+            BindOp::Batch(_) | BindOp::BigBatch(_) => "binder.bind_tokens",
+        }
+        .into()
+    }
+
+    fn leaf_only(&self, op: &BindOp) -> bool {
+        matches!(op, BindOp::BigBatch(_))
+    }
+
+    fn apply(&self, i: &mut BindInst, op: &BindOp) {
+        self.call(i, op);
+    }
+
+    fn step(&self, i: &mut BindInst, m: &mut BTreeSet<u16>, op: &BindOp, cx: &mut StepCtx<Self>) -> Result<bool, Violation> {
+        let x = self.expect(m, op);
+        let ok = self.call(i, op);
+        check_outcome(ok, &x, op)?;
+        if ok {
+            match op {
+                BindOp::Bind(t) => {
+                    m.insert(*t);
+                }
+                BindOp::Unbind(t) => {
+                    m.remove(t);
+                }
+                _ => m.extend(Self::batch_ids(op)),
+            }
+            if x.oracle == "limit-exact" {
+                cx.stats.count("accepted-at-limit", 1);
+            }
+            self.observe(i, m, cx)?;
+        } else if x.ok == Some(false) {
+            cx.stats.count(&format!("refused.{}", x.oracle), 1);
+        }
+        Ok(ok)
+    }
+
+    fn key(&self, i: &BindInst) -> [u8; 32] {
+        envx::storage_digest(&i.e, false)
+    }
+    fn model_digest(&self, m: &BTreeSet<u16>) -> u64 {
+        dig(m)
+    }
+}
+
+fn binder_worlds(tier: Tier) -> Vec<(Binder, usize)> {
+    let th = tier == Tier::Thorough;
+    vec![
+        (
+            Binder {
+                name: "token-binder",
+                seeds: vec![0],
+                universe: vec![0, 1, 2, 3],
+                batches: vec![vec![0, 1], vec![1, 0], vec![2, 3], vec![0, 1, 2], vec![0, 0], vec![]],
+                big: vec![200, 201],
+                full_index_scan_up_to: 1000,
+            },
+            tier.pick(5, 7),
+        ),
+        (
+            Binder {
+                name: "token-binder-bucket-edge",
+                seeds: if th { vec![98, 99, 100, 101, 199, 200] } else { vec![98, 99, 100] },
+                universe: vec![0, 1, 2],
+                batches: vec![vec![0, 1], vec![0, 1, 2], vec![1, 1]],
+                big: vec![],
+                full_index_scan_up_to: 1000,
+            },
+            tier.pick(3, 4),
+        ),
+        (
+            Binder {
+                name: "token-binder-capacity",
+                seeds: vec![MAX_TOKENS - 2],
+                universe: vec![0, 1, 2],
+                batches: vec![vec![0, 1], vec![0, 1, 2]],
+                big: vec![],
+                full_index_scan_up_to: 0,
+            },
+            tier.pick(2, 3),
+        ),
+    ]
+}
+
+// ==========================================================================================
 
 pub fn run(tier: Tier, r: &mut Runner) {
+    if std::env::var("C20B_TIME").is_ok() {
+        for n in [1000usize, 3000, 9998] {
+            let w = Binder { name: "t", seeds: vec![n], universe: vec![0, 1, 2], batches: vec![], big: vec![], full_index_scan_up_to: 0 };
+            let t = std::time::Instant::now();
+            let (i, m) = w.fresh(0);
+            println!("fresh {n}: {:?}", t.elapsed());
+            let t = std::time::Instant::now();
+            let _ = w.call(&i, &BindOp::Bind(0));
+            println!("bind: {:?}", t.elapsed());
+            let t = std::time::Instant::now();
+            let _ = envx::storage_digest(&i.e, false);
+            println!("digest: {:?} {}", t.elapsed(), m.len());
+        }
+        return;
+    }
     let wall = tier.pick(20, 240);
     for (w, d) in cti_worlds(tier) {
         r.world(&w, &Bounds::new(d, wall));
     }
     for (w, d) in key_worlds(tier) {
+        r.world(&w, &Bounds::new(d, wall));
+    }
+    for (w, d) in binder_worlds(tier) {
         r.world(&w, &Bounds::new(d, wall));
     }
     if let Some(rep) = r.report() {
@@ -847,6 +1209,9 @@ pub fn run(tier: Tier, r: &mut Runner) {
             "cti.update_issuer_claim_topics",
             "keys.allow_key",
             "keys.remove_key",
+            "binder.bind_token",
+            "binder.unbind_token",
+            "binder.bind_tokens",
         ];
         rep.require(&both, &both);
     }
